@@ -1,6 +1,7 @@
 from .core import *
 
 SRC = "rpyc/core/brine.py"
+PRELUDE = "From V Require Import model.Ladder.\n"
 CMP = {ast.Eq: "LEq", ast.Lt: "LLt", ast.LtE: "LLe", ast.Gt: "LGt", ast.GtE: "LGe"}
 
 
